@@ -310,6 +310,14 @@ def process(ctx, batch, harness, driver, denv, fixed, model_fixed, total, kinds,
             mown.append(hi)
     mans, _ = common.run_lines(driver, mlines, env=denv) if mlines else ([], [])
     mof = dict(zip(mown, mans))
+    # the instance with the REAL per-node encoding (Model/FlowEnc.v over Model/EncWbxml.v): every WBXML history
+    elines, eown = [], []
+    for hi, h in enumerate(batch):
+        if h["mode"] == "W":
+            elines.append(("flowencfixed" if model_fixed else "flowenc") + h["line"][4:])
+            eown.append(hi)
+    eans, _ = common.run_lines(driver, elines, env=denv) if elines else ([], [])
+    eof = dict(zip(eown, eans))
     per = {}
     for (hi, kind, payload), a in zip(owner, ans):
         per.setdefault(hi, {"fresh": {}, "batch": {}})
@@ -410,6 +418,26 @@ def process(ctx, batch, harness, driver, denv, fixed, model_fixed, total, kinds,
                 xb, _ = expected(h["lives"][-1][0])
                 if sb is not None and xb is not None and sb != xb:
                     corr.append({"input": h["line"], "spec_body": sb, "fresh_encoder_body": xb, "kind": "spec-vs-fresh"})
+        # tie of the real-encoder instance: error code, header flag, body, both code pages after EVERY operation,
+        # and its specification side (w_spec_output) against the C's fresh encoder
+        m = eof.get(hi)
+        if m is not None:
+            if m == "skip" or m is None:
+                total["encwbxml_skipped"] = total.get("encwbxml_skipped", 0) + 1
+            else:
+                mf = parse_flow(m.split(" S=")[0])
+                total["encwbxml_compared"] = total.get("encwbxml_compared", 0) + 1
+                def tie2(x):
+                    return (x[0], x[1], x[2], ".".join(x[3].split(".")[:2]))
+                if mf is None or [tie2(x) for x in mf] != [tie2(x) for x in flow]:
+                    k = next((i for i in range(min(len(mf or []), len(flow))) if tie2(mf[i]) != tie2(flow[i])), None)
+                    corr.append({"input": h["line"], "kind": "encwbxml-instance-vs-c", "first_differing_op": k,
+                                 "c": flow[k] if k is not None else None, "model": mf[k] if (mf and k is not None) else m[:200]})
+                else:
+                    sb = m.split(" S=")[1].split(" ")[0] if " S=" in m else None
+                    xb, _ = expected(h["lives"][-1][0])
+                    if sb is not None and xb is not None and (sb or "-") != xb:
+                        corr.append({"input": h["line"], "spec_body": sb, "fresh_encoder_body": xb, "kind": "encwbxml-spec-vs-fresh"})
         if "D" in h["ops"] and flow[-1][2] != "-":
             nontrivial.add(hash(h["line"]))
         if len(samples) < 12 and hash(h["line"]) % 11 == 0 and "D" in h["ops"]:
